@@ -62,16 +62,21 @@ Proof.
 Qed.
 
 (* the NumPy tables of this image satisfy the three hypotheses *)
-Theorem np_other_error_only_for_hidden_names o s :
-  Inv s -> snd (np_step o s) = Raise OtherError ->
-  exists name v, assoc name (vars s) = None /\
-    ((exists l, o = SetItem (KLabel name l) v) \/ (exists a b st, o = SetItem (KSlice name a b st) v)).
+Theorem np_no_other_error o s : Inv s -> snd (np_step o s) <> Raise OtherError.
 Proof.
-  apply other_error_only_for_hidden_names.
+  apply no_other_error.
   - intros d c C. apply np_cast_classes in C. destruct C as [C|[C|C]]; discriminate C.
   - intros src d c C. apply np_cast_classes in C. destruct C as [C|[C|C]]; discriminate C.
   - intros d. destruct d; discriminate.
 Qed.
+
+(* the read-only hooks on w0 *)
+Example hooks_on_w0 :
+  read QCompletions w0 = (w0, Ret (VNames ["X"; "F"])) /\
+  read (QContains "F") w0 = (w0, Ret (VBool true)) /\ read (QContains "attributes") w0 = (w0, Ret (VBool false)) /\
+  read QNbytes w0 = (w0, Ret (VNat 48)) /\
+  read QDir w0 = (w0, Ret (VNames ["X"; "F"; "_attributes"; "span"; "index"; "_strict"])).
+Proof. vm_compute. repeat split. Qed.
 
 (* ---- kept finding: a failing element cast part-way through NumPy's in-place copy leaves the leading cells written *)
 Definition op_partial : op :=
@@ -92,15 +97,14 @@ Example whole_series_list_is_atomic :
   np_step (SetAttr "X" (OSeq KList [OScalar (PInt 7); OScalar (PInt 8); OScalar (PFlt FNaN)]) None) w0 = (w0, Raise ValueError).
 Proof. vm_compute. reflexivity. Qed.
 
-(* ---- kept finding: obj['attributes', label] = v is accepted although 'attributes' is not a variable *)
-Theorem unknown_name_accepted_refuted :
-  exists s l v, Inv s /\ assoc "attributes" (vars s) = None /\ mem "attributes" (index s) = false /\
-    snd (np_step (SetItem (KLabel "attributes" l) v) s) = Ret tt /\
-    registry (fst (np_step (SetItem (KLabel "attributes" l) v) s)) <> registry s.
-Proof.
-  exists w0, 10%Z, (OScalar (PStr "zz")). split; [exact w0_inv|].
-  vm_compute. repeat split. intros C. discriminate C.
-Qed.
+(* ---- the repaired defect (fix 216fc36): obj[name, label] = v with `name` no variable is rejected, also for the names of the
+   object's own bookkeeping ('attributes' -> _attributes, 'strict' -> _strict), whatever the label *)
+Example unknown_name_item_assignments_rejected :
+  np_step (SetItem (KLabel "attributes" 10%Z) (OScalar (PStr "zz"))) w0 = (w0, Raise KeyError) /\
+  np_step (SetItem (KLabel "strict" 99%Z) (OScalar (PInt 1))) w0 = (w0, Raise KeyError) /\
+  np_step (SetItem (KSlice "attributes" None None None) (li [1; 2; 3]%Z)) w0 = (w0, Raise KeyError) /\
+  mem "attributes" (index w0) = false.
+Proof. vm_compute. repeat split. Qed.
 
 (* ---- the repaired defect (fix 3167e13): a nested list whose outer length equals the span is rejected *)
 Example rank2_whole_series_rejected :
